@@ -2,8 +2,8 @@
 //!  (a) closure-level injection through hook H7: every combination of {ok, Err, panic-before, panic-after}
 //!      on the (at most three) renames of the publish/rollback sequence, from every initial state — exhaustive;
 //!  (b) syscall-level injection with strace into a child process running the UNHOOKED
-//!      generate_all_circuit_binaries: the k-th filesystem-mutating syscall returns an error, or the
-//!      process is SIGKILLed at its entry, for every k.
+//!      generate_all_circuit_binaries: every file-system call of the publishing thread (by syscall name and
+//!      per-name ordinal, which is how strace's `when=` counts) returns an error, or the process is SIGKILLed at its entry.
 
 use crate::util::{Ctx, Report, Scratch};
 use rayon::prelude::*;
@@ -222,7 +222,7 @@ pub fn child_generate(dir: &str) -> i32 {
     }
 }
 
-const FS_SYSCALLS: &str = "rename,renameat,renameat2,unlink,unlinkat,rmdir,mkdir,mkdirat";
+const FS_SYSCALLS: &str = "rename,renameat,renameat2,unlink,unlinkat,rmdir,mkdir,mkdirat,openat,creat,write";
 
 fn strace_available() -> bool {
     Command::new("strace").arg("-V").output().map(|o| o.status.success()).unwrap_or(false)
@@ -233,18 +233,12 @@ struct ChildOutcome {
     killed: bool,
 }
 
-fn run_child(out_dir: &Path, inject: Option<&str>, count_file: Option<&Path>) -> Option<ChildOutcome> {
+/// runs `vf child-generate <out_dir>` under strace; the trace of FS_SYSCALLS goes to `trace_file`
+fn run_child(out_dir: &Path, inject: Option<&str>, trace_file: &Path) -> Option<ChildOutcome> {
     let exe = std::env::current_exe().ok()?;
     let mut cmd = Command::new("strace");
-    cmd.arg("-f").arg("-qq");
-    match count_file {
-        Some(f) => {
-            cmd.arg("-o").arg(f).arg("-e").arg(format!("trace={FS_SYSCALLS}"));
-        }
-        None => {
-            cmd.arg("-o").arg("/dev/null").arg("-e").arg("trace=none");
-        }
-    }
+    cmd.arg("-f").arg("-qq").arg("-s").arg("0");
+    cmd.arg("-o").arg(trace_file).arg("-e").arg(format!("trace={FS_SYSCALLS}"));
     if let Some(i) = inject {
         cmd.arg("-e").arg(i);
     }
@@ -256,92 +250,147 @@ fn run_child(out_dir: &Path, inject: Option<&str>, count_file: Option<&Path>) ->
     Some(ChildOutcome { exit: st.code(), killed: st.signal().is_some() })
 }
 
+/// one traced syscall of the publishing thread
+#[derive(Clone, Debug)]
+struct Sc {
+    name: String,
+    /// 1-based ordinal among the calls of the same name in the same thread (strace's `when=` counts per syscall and per tracee)
+    ord: usize,
+    line: String,
+}
+
+fn parse_trace(txt: &str) -> Vec<Sc> {
+    // the publishing thread is the one that creates the staging directory
+    let pid = txt.lines().find(|l| l.contains(".staging-")).and_then(|l| l.split_whitespace().next()).unwrap_or("").to_string();
+    let mut ords: BTreeMap<String, usize> = BTreeMap::new();
+    let mut v = vec![];
+    for l in txt.lines() {
+        let mut it = l.splitn(2, char::is_whitespace);
+        let (p, rest) = (it.next().unwrap_or(""), it.next().unwrap_or("").trim_start());
+        if p != pid || rest.starts_with("<...") || rest.starts_with("+++") || rest.starts_with("---") {
+            continue;
+        }
+        let Some(name) = rest.split('(').next() else { continue };
+        if name.is_empty() || !name.chars().all(|c| c.is_ascii_alphanumeric() || c == '_') {
+            continue;
+        }
+        let o = ords.entry(name.to_string()).or_insert(0);
+        *o += 1;
+        v.push(Sc { name: name.to_string(), ord: *o, line: rest.to_string() });
+    }
+    v
+}
+
 fn syscall_space(ctx: &Ctx, rep: &Report) {
     if !strace_available() {
         rep.note("strace not available: syscall-level injection skipped");
         return;
     }
     let scratch = Scratch::new("c23b");
-    // reference run: the complete new set and the number of filesystem-mutating syscalls in the main thread
-    let ref_root = scratch.path().join("ref");
-    std::fs::create_dir_all(&ref_root).unwrap();
-    let trace = ref_root.join("trace.txt");
-    let ref_out = ref_root.join("bins");
-    let Some(o) = run_child(&ref_out, None, Some(&trace)) else {
-        rep.note("strace could not run the child: syscall-level injection skipped");
-        return;
+    let old: FileSet = [("common.bin".to_string(), b"OLD-common".to_vec()), ("keep.me".to_string(), b"previous generation".to_vec())].into_iter().collect();
+    let prepare = |output: &Path, init: Init| match init {
+        Init::Absent => {}
+        Init::File => std::fs::write(output, b"i am a file").unwrap(),
+        Init::OldDir => write_set(output, &old),
     };
-    if o.exit != Some(0) {
-        rep.note(&format!("reference child run failed (exit {:?}): syscall-level injection skipped (ptrace may be unavailable)", o.exit));
-        return;
-    }
-    let Some(new_set) = read_set(&ref_out) else {
-        rep.inconclusive("reference generation produced no output directory");
-        return;
-    };
-    // count syscalls per pid; the main thread is the one that issues the renames
-    let txt = std::fs::read_to_string(&trace).unwrap_or_default();
-    let mut per_pid: BTreeMap<String, usize> = BTreeMap::new();
-    let mut rename_pid = String::new();
-    for l in txt.lines() {
-        let pid = l.split_whitespace().next().unwrap_or("").to_string();
-        *per_pid.entry(pid.clone()).or_insert(0) += 1;
-        if l.contains("rename") {
-            rename_pid = pid;
+    let inits: Vec<Init> = ctx.tier.pick(vec![Init::Absent, Init::OldDir], vec![Init::Absent, Init::OldDir, Init::File]);
+    // reference run per initial state: the fault-free syscall sequence of the publishing thread and the complete new set
+    let mut new_set: Option<FileSet> = None;
+    let mut jobs: Vec<(Init, Sc, &str)> = vec![];
+    let mut space = vec![];
+    for &init in &inits {
+        let root = scratch.path().join(format!("ref-{init:?}"));
+        std::fs::create_dir_all(&root).unwrap();
+        let output = root.join("bins");
+        prepare(&output, init);
+        let trace = root.join("trace.txt");
+        let Some(o) = run_child(&output, None, &trace) else {
+            rep.note("strace could not run the child: syscall-level injection skipped");
+            return;
+        };
+        let want_exit_ok = init != Init::File;
+        if (o.exit == Some(0)) != want_exit_ok {
+            if init == Init::Absent {
+                rep.note(&format!("reference child run failed (exit {:?}): syscall-level injection skipped (ptrace may be unavailable)", o.exit));
+                return;
+            }
+            rep.violation("publish / fault-free run reports the wrong result", &format!("fault-free generation from initial state {init:?} exited with {:?}", o.exit), json!({"initial": format!("{init:?}")}));
+            continue;
         }
+        if init == Init::Absent {
+            new_set = read_set(&output);
+            if new_set.is_none() {
+                rep.inconclusive("reference generation produced no output directory");
+                return;
+            }
+        }
+        let scs = parse_trace(&std::fs::read_to_string(&trace).unwrap_or_default());
+        if scs.is_empty() {
+            rep.inconclusive("no filesystem syscalls observed in the child (trace empty)");
+            return;
+        }
+        let mut picked = 0usize;
+        for sc in &scs {
+            // writes to the standard streams are not artifact I/O (a failing println! aborts the process by panic: that is the kill case)
+            if sc.name == "write" && (sc.line.starts_with("write(1,") || sc.line.starts_with("write(2,") || sc.line.starts_with("write(0,")) {
+                continue;
+            }
+            let touches_artifacts = sc.line.contains("bins");
+            if sc.name == "openat" && !touches_artifacts && ctx.tier == crate::util::Tier::Quick {
+                continue;
+            }
+            picked += 1;
+            for mode in ["error=EIO", "signal=KILL", "error=ENOSPC", "error=EACCES"] {
+                let quick = ctx.tier == crate::util::Tier::Quick;
+                if quick && (mode == "error=ENOSPC" || mode == "error=EACCES") {
+                    continue;
+                }
+                // quick: kills only at the directory-level operations (file contents are only ever written inside staging)
+                if quick && mode == "signal=KILL" && (sc.name == "write" || sc.name == "openat") && picked % 3 != 0 {
+                    continue;
+                }
+                jobs.push((init, sc.clone(), mode));
+            }
+        }
+        space.push(json!({"initial": format!("{init:?}"), "syscalls_of_publishing_thread": scs.len(), "fault_points": picked,
+            "sequence": scs.iter().map(|s| format!("{}#{}", s.name, s.ord)).collect::<Vec<_>>()}));
     }
-    let total = per_pid.get(&rename_pid).copied().unwrap_or(0);
-    rep.set_extra("syscall_space", json!({"fs_mutating_syscalls_in_publishing_thread": total, "syscalls": FS_SYSCALLS, "new_set_files": new_set.keys().collect::<Vec<_>>()}));
-    if total == 0 {
-        rep.inconclusive("no filesystem-mutating syscalls observed in the child (trace empty)");
-        return;
-    }
+    let new_set = new_set.unwrap();
+    rep.set_extra("syscall_space", json!({"syscalls": FS_SYSCALLS, "per_initial_state": space, "new_set_files": new_set.keys().collect::<Vec<_>>(), "jobs": jobs.len()}));
     let same_new = |s: &FileSet| -> bool {
         // proofs are re-generated per run; compare names, and bytes of the deterministic artifacts
         s.keys().collect::<Vec<_>>() == new_set.keys().collect::<Vec<_>>()
             && s.iter().all(|(k, v)| k == "dummy_proof.bin" || new_set.get(k) == Some(v))
     };
-    let old: FileSet = [("common.bin".to_string(), b"OLD-common".to_vec()), ("keep.me".to_string(), b"previous generation".to_vec())].into_iter().collect();
-    let inits: Vec<Init> = ctx.tier.pick(vec![Init::Absent, Init::OldDir], vec![Init::Absent, Init::OldDir, Init::File]);
-    let ks: Vec<usize> = match ctx.tier {
-        crate::util::Tier::Quick => {
-            // the publish phase is at the end of the trace: last 8 syscalls plus a few early ones
-            let mut v: Vec<usize> = (total.saturating_sub(6) + 1..=total).collect();
-            v.extend([1usize]);
-            v.sort();
-            v.dedup();
-            v
-        }
-        crate::util::Tier::Thorough => (1..=total + 2).collect(),
-    };
-    let mut jobs: Vec<(Init, usize, &str)> = vec![];
-    for &init in &inits {
-        for &k in &ks {
-            for mode in ["error=EIO", "signal=KILL", "error=ENOSPC"] {
-                if mode == "error=ENOSPC" && ctx.tier == crate::util::Tier::Quick {
-                    continue;
-                }
-                jobs.push((init, k, mode));
-            }
-        }
-    }
-    jobs.par_iter().enumerate().for_each(|(ji, &(init, k, mode))| {
+    jobs.par_iter().enumerate().for_each(|(ji, (init, sc, mode))| {
         if ctx.over_budget() {
             return;
         }
+        let (init, mode) = (*init, *mode);
         let root = scratch.path().join(format!("job{ji}"));
         std::fs::create_dir_all(&root).unwrap();
         let output = root.join("bins");
-        match init {
-            Init::Absent => {}
-            Init::File => std::fs::write(&output, b"i am a file").unwrap(),
-            Init::OldDir => write_set(&output, &old),
-        }
-        let inject = format!("inject={FS_SYSCALLS}:{mode}:when={k}");
-        let Some(o) = run_child(&output, Some(&inject), None) else { return };
+        prepare(&output, init);
+        let inject = format!("inject={}:{mode}:when={}", sc.name, sc.ord);
+        let trace = root.join("trace.txt");
+        let Some(o) = run_child(&output, Some(&inject), &trace) else { return };
         rep.eval();
-        rep.nontrivial(&(format!("{init:?}"), k, mode));
-        rep.count(&format!("syscall_injection:{}", if mode.starts_with("signal") { "kill" } else { "error" }));
+        let ttxt = std::fs::read_to_string(&trace).unwrap_or_default();
+        let injected: Vec<&str> = ttxt.lines().filter(|l| l.contains("(INJECTED)")).collect();
+        let is_kill = mode.starts_with("signal");
+        if !is_kill && injected.is_empty() {
+            rep.count("syscall_injection:not_reached");
+            return;
+        }
+        if is_kill && !o.killed {
+            rep.count("syscall_injection:not_reached");
+            return;
+        }
+        rep.nontrivial(&(format!("{init:?}"), sc.name.clone(), sc.ord, mode));
+        rep.count(&format!("syscall_injection:{}:{}", if is_kill { "kill" } else { "error" }, sc.name));
+        let single = injected.len() == 1;
+        // which call failed, as observed in this run's own trace
+        let failed_call = injected.first().map(|l| l.splitn(2, char::is_whitespace).nth(1).unwrap_or("").trim().to_string()).unwrap_or_default();
         // inspect the tree
         let at_out = if !output.exists() { At::Absent } else if output.is_file() { At::File } else {
             match read_set(&output) { Some(s) if s == old => At::Old, Some(s) if same_new(&s) => At::New, Some(s) => At::Mixed(format!("{:?}", s.keys().collect::<Vec<_>>())), None => At::Absent }
@@ -357,7 +406,8 @@ fn syscall_space(ctx: &Ctx, rep: &Report) {
         let initial_at = match init { Init::Absent => At::Absent, Init::File => At::File, Init::OldDir => At::Old };
         let old_survives = staging_like.iter().any(|(n, a)| n.ends_with(".old") && *a == At::Old);
         let new_survives = staging_like.iter().any(|(n, a)| !n.ends_with(".old") && *a == At::New);
-        let case = json!({"initial": format!("{init:?}"), "inject": inject, "exit": o.exit, "killed": o.killed, "output": format!("{at_out:?}"), "siblings": staging_like.iter().map(|(n, a)| format!("{n}: {a:?}")).collect::<Vec<_>>()});
+        let case = json!({"initial": format!("{init:?}"), "inject": inject, "reference_call": sc.line, "failed_call": failed_call, "injected_calls": injected.len(), "exit": o.exit, "killed": o.killed,
+            "output": format!("{at_out:?}"), "siblings": staging_like.iter().map(|(n, a)| format!("{n}: {a:?}")).collect::<Vec<_>>()});
         if let At::Mixed(m) = &at_out {
             rep.violation("publish / mixed artifact set at output (syscall fault)", &format!("the output path holds a mix of artifacts: {m}"), case.clone());
             return;
@@ -366,7 +416,7 @@ fn syscall_space(ctx: &Ctx, rep: &Report) {
             rep.count("outcome:killed");
             let ok = at_out == At::New || at_out == initial_at || (initial_at == At::Old && at_out == At::Absent && old_survives && new_survives);
             if !ok {
-                rep.violation("publish / kill loses or mixes artifacts", &format!("after SIGKILL at fs-syscall {k} the output path holds {at_out:?} (initially {initial_at:?}); old survives: {old_survives}, new survives: {new_survives}"), case.clone());
+                rep.violation("publish / kill loses or mixes artifacts", &format!("after SIGKILL at {}#{} the output path holds {at_out:?} (initially {initial_at:?}); old survives: {old_survives}, new survives: {new_survives}", sc.name, sc.ord), case.clone());
             }
         } else if o.exit == Some(0) {
             rep.count("outcome:ok");
@@ -384,15 +434,18 @@ fn syscall_space(ctx: &Ctx, rep: &Report) {
             } else if at_out != initial_at && !documented_double {
                 rep.violation("publish / reported failure changed the output (syscall fault)", &format!("after a reported failure the output path holds {at_out:?} (initially {initial_at:?})"), case.clone());
             }
-            // single-fault runs: a failed run leaves no staging directory unless it is the documented complete survivor
+            // a failed run leaves no staging directory behind, unless it is the documented complete survivor of a failed publish.
+            // The single injected fault is what made the run fail, so the clean-up that follows it runs fault-free.
             let stray: Vec<&(String, At)> = staging_like.iter().filter(|(n, a)| !n.ends_with(".old") && *a != At::New).collect();
-            if !stray.is_empty() && !mode.starts_with("signal") {
-                // the injected fault may have hit the cleanup itself (unlink/rmdir of the staging directory): that is the one
-                // fault of this run, so cleanup cannot be expected to finish; record, do not flag
-                rep.count("partial_staging_after_failed_cleanup(observed)");
+            if !stray.is_empty() {
+                if single {
+                    rep.violation("publish / failed generation leaves a staging directory behind", &format!("after the reported failure caused by `{failed_call}` a partial staging directory is left next to the output: {:?}", stray.iter().map(|(n, a)| format!("{n}: {a:?}")).collect::<Vec<_>>()), case.clone());
+                } else {
+                    rep.count("partial_staging_after_multiple_injected_faults(observed)");
+                }
             }
         }
-        if ji % 29 == 0 {
+        if ji % 17 == 0 {
             rep.sample(case);
         }
     });
@@ -400,7 +453,7 @@ fn syscall_space(ctx: &Ctx, rep: &Report) {
 
 pub fn run_c23(ctx: &Ctx) -> i32 {
     let rule = "fault point = (initial state in {absent, file, previous directory}) x (behaviour of each rename of the publish/rollback sequence in {ok, error, crash before, crash after}) through the injectable publish routine (hook H7) — the whole space is enumerated; \
-        plus (initial state) x (k-th filesystem-mutating syscall of the real generator process returns EIO/ENOSPC or the process is SIGKILLed at its entry) under strace; after every run the directory tree is inspected and every file compared byte-wise with the previous / new set; \
+        plus (initial state) x (every file-system call — mkdir, openat, write to an artifact, unlink, rename, rmdir — that the publishing thread of the real generator process makes in a fault-free reference run, identified by (syscall, ordinal)) x (returns EIO/ENOSPC/EACCES, or the process is SIGKILLed at its entry) under strace, each run's own trace confirming which call was hit; after every run the directory tree is inspected and every file compared byte-wise with the previous / new set; \
         non-trivial = every executed fault point; distinct by (initial state, fault plan)";
     let rep = Report::new("C23", "fault_enumeration", rule);
     rep.assume("a panic inside the injected rename stands for process death at that point: the publish routine has no drop guards on this path, so no clean-up code runs after the panic");
